@@ -14,3 +14,4 @@ pub(crate) mod genv;
 pub(crate) mod easyv;
 pub(crate) mod serdev;
 pub(crate) mod allocv;
+pub(crate) mod simdstubs;
